@@ -18,6 +18,8 @@ instance : Coord Float32 where
   half a := a / 2.0
   zero := 0.0
   ltInf a := decide (a < Float32.ofBits 0x7f800000)
+  -- `let split_target = min / 2.0 + max / 2.0;` (par_rcb_split, /repo 2a9cff7)
+  mid a b := a / 2.0 + b / 2.0
 
 def f32OfBits (n : Nat) : Float32 := Float32.ofBits (UInt32.ofNat n)
 def f64OfBits (n : Nat) : Float := Float.ofBits (UInt64.ofNat n)
